@@ -9,3 +9,9 @@ package vsix
 //@   nopanic
 //@   requires m != nil && m.ctypes != nil && cert != nil
 //@   allocbound 0 16 * len(m.digests)
+//@
+//@ func keepFile
+//@   property C08 C03
+//@   pure
+//@   ensures @nothing_under_the_digital_signature_directory_counts_as_payload purecallb("strings.HasPrefix", fp, "package/services/digital-signature/") ==> !ret0
+//@   ensures @package_plumbing_is_not_payload fp == "[Content_Types].xml" || fp == "_rels/" ==> !ret0
